@@ -1429,12 +1429,17 @@ impl<'a> Parser<'a> {
             return false;
         }
 
-        // Look ahead to find comma before ParenEnd
+        // Look ahead to find a comma before the matching ParenEnd. The scan is not
+        // bounded by MAX_LOOKAHEAD (a long first element would turn a tuple into a
+        // parenthesised expression) and skips nested blocks, records and arrays, whose
+        // commas do not belong to this parenthesis.
         let mut depth = 0;
-        for i in 1..MAX_LOOKAHEAD {
+        for i in 1.. {
             match self.peek_ahead(i) {
-                Some(TokenKind::ParenBegin) => depth += 1,
-                Some(TokenKind::ParenEnd) => {
+                Some(TokenKind::ParenBegin | TokenKind::BlockBegin | TokenKind::ArrayBegin) => {
+                    depth += 1
+                }
+                Some(TokenKind::ParenEnd | TokenKind::BlockEnd | TokenKind::ArrayEnd) => {
                     if depth == 0 {
                         return false; // no comma found
                     }
